@@ -37,6 +37,11 @@ Inductive c20_case :=
 (* createDigestAuth through the hook *)
 | DigestCase (t : hash_table) (chal uri method user pass cnonce obs_auth : bytes) (e : obs_err)
 | ParseCase (chal : bytes) (obs : option (list bytes)) (e : obs_err)
+(* a challenge text together with the way the harness built it (white space, parameter list,
+   token / quoted form): the text IS render_challenge of that structure, the structure satisfies
+   the hypotheses of theorem C20_challenge_text_parsed, and the real parseChallenge returned the
+   meaning of the parameter list (apply_fields) *)
+| ChalTextCase (pre mid post : bytes) (xs : list padded) (text : bytes) (obs : option (list bytes)) (e : obs_err)
 (* digest.go escapeQuoted / unquoteParam through the hook *)
 | QuoteCase (s obs_escaped : bytes) (v obs_unquoted : bytes)
 (* a (possibly damaged) Authorization header given to the harness's RFC 7616 verifier (Go,
@@ -67,6 +72,15 @@ Definition c20_check (c : c20_case) : bool :=
       res_matches (create_digest_auth (H_tab t) chal uri method user pass cnonce) obs e
   | ParseCase chal obs e =>
       match parse_challenge chal, obs, e with
+      | inl c, Some fs, ONone => list_eqb bytes_eqb (chal_fields c) fs
+      | inr x, None, ODigest y => derr_eqb x y
+      | _, _, _ => false
+      end
+  | ChalTextCase pre mid post xs text obs e =>
+      bytes_eqb (render_challenge pre mid post xs) text &&
+      forallb is_chal_ws pre && forallb is_chal_ws mid && forallb is_chal_ws post &&
+      forallb piece_ok xs && ends_tightb xs &&
+      match apply_fields empty_chal (map padded_sem xs), obs, e with
       | inl c, Some fs, ONone => list_eqb bytes_eqb (chal_fields c) fs
       | inr x, None, ODigest y => derr_eqb x y
       | _, _, _ => false
